@@ -33,9 +33,9 @@ m("C02-e", "C02", "libwallet/src/slate.rs", "\t\tself.verify_part_sigs(secp)?;\n
 # ---- C03
 m("C03-a", "C03", "libwallet/src/internal/selection.rs", "if coin.status == OutputStatus::Locked || coin.status == OutputStatus::Spent {", "if coin.status == OutputStatus::Spent {", "C03.R2")
 m("C03-b", "C03", "libwallet/src/api_impl/foreign.rs", "\t\tif t.tx_type == TxLogEntryType::TxReceived {\n\t\t\treturn Err(Error::TransactionAlreadyReceived(ret_slate.id.to_string()));\n\t\t}", "\t\tif t.tx_type == TxLogEntryType::TxReceivedCancelled {\n\t\t\treturn Err(Error::TransactionAlreadyReceived(ret_slate.id.to_string()));\n\t\t}", "C03.R3")
-m("C03-c", "C03", "libwallet/src/types.rs", "\t\tif [OutputStatus::Spent, OutputStatus::Locked].contains(&self.status)", "\t\tif [OutputStatus::Spent, OutputStatus::Reverted].contains(&self.status)", "C03.R4")
+m("C03-c", "C03", "libwallet/src/types.rs", "\t\tif [OutputStatus::Spent, OutputStatus::Locked].contains(&self.status)\n\t\t\t|| self.status == OutputStatus::Unconfirmed && self.is_coinbase\n\t\t\t|| self.lock_height > current_height\n\t\t{\n\t\t\tfalse\n\t\t} else {\n\t\t\t(self.status == OutputStatus::Unspent\n", "\t\tif [OutputStatus::Spent, OutputStatus::Reverted].contains(&self.status)\n\t\t\t|| self.status == OutputStatus::Unconfirmed && self.is_coinbase\n\t\t\t|| self.lock_height > current_height\n\t\t{\n\t\t\tfalse\n\t\t} else {\n\t\t\t((self.status == OutputStatus::Unspent || self.status == OutputStatus::Locked)\n", "C03.R4")
 # ---- C04
-m("C04-a", "C04", "libwallet/src/internal/updater.rs", "OutputStatus::Reverted => reverted_total += out.value,", "OutputStatus::Reverted => unspent_total += out.value,", "C04.R2")
+m("C04-a", "C04", "libwallet/src/internal/updater.rs", "OutputStatus::Reverted => reverted_total += out.value,", "OutputStatus::Reverted => {\n\t\t\t\treverted_total += 0;\n\t\t\t\tunspent_total += out.value\n\t\t\t}", "C04.R2")
 m("C04-b", "C04", "libwallet/src/internal/updater.rs", "\t\ttotal: unspent_total + unconfirmed_total + immature_total,", "\t\ttotal: unspent_total + unconfirmed_total + immature_total + locked_total,", "C04.R3")
 m("C04-c", "C04", "libwallet/src/internal/updater.rs", ".filter(|x| x.root_key_id == *parent_key_id && x.status != OutputStatus::Spent)", ".filter(|x| x.status != OutputStatus::Spent)", "C04.R1")
 m("C04-d", "C04", "libwallet/src/internal/updater.rs", "\t\tif height < last_confirmed_height {", "\t\tif height + 1000 < last_confirmed_height {", "C04.R4")
@@ -46,7 +46,7 @@ m("C05-c", "C05", "libwallet/src/internal/updater.rs", "if o.status == OutputSta
 m("C05-d", "C05", "libwallet/src/internal/tx.rs", "\t\tSome(tx.id),\n\t\tSome(&parent_key_id),\n\t)?;\n\tlet outputs", "\t\tSome(tx.id),\n\t\tNone,\n\t)?;\n\tlet outputs", "C05.R2")
 # ---- C06
 m("C06-a", "C06", "libwallet/src/internal/scan.rs", "\t\tis_coinbase: output.is_coinbase,\n\t\ttx_log_entry: Some(log_id),\n\t})?;", "\t\tis_coinbase: output.is_coinbase,\n\t\ttx_log_entry: Some(log_id),\n\t});", "C06.R3")
-m("C06-b", "C06", "libwallet/src/internal/selection.rs", "\t\tbatch.save_tx_log_entry(t.clone(), &parent_key_id)?;\n\t\tbatch.commit()?;\n\t\tt\n\t};", "\t\tbatch.commit()?;\n\t\tlet mut batch = wallet.batch(keychain_mask)?;\n\t\tbatch.save_tx_log_entry(t.clone(), &parent_key_id)?;\n\t\tbatch.commit()?;\n\t\tt\n\t};", "C06.R1")
+m("C06-b", "C06", "libwallet/src/internal/selection.rs", "\t\tbatch.save_tx_log_entry(t.clone(), &parent_key_id)?;\n\t\tbatch.commit()?;\n\t\tt\n\t};", "\t\tbatch.commit()?;\n\t\tdrop(batch);\n\t\tlet mut batch = wallet.batch(keychain_mask)?;\n\t\tbatch.save_tx_log_entry(t.clone(), &parent_key_id)?;\n\t\tbatch.commit()?;\n\t\tt\n\t};", "C06.R1")
 m("C06-c", "C06", "impls/src/backends/lmdb.rs", "\t\tbatch.save_child_index(&parent_key_id, deriv_idx)?;\n\t\tbatch.commit()?;\n\t\tOk(Identifier::from_path(&return_path))", "\t\tbatch.save_child_index(&parent_key_id, deriv_idx)?;\n\t\tlet _ = batch.commit();\n\t\tOk(Identifier::from_path(&return_path))", "C06.R")
 # ---- C07
 m("C07-a", "C07", "libwallet/src/internal/updater.rs", "Ok(o) if o.is_coinbase && o.status == OutputStatus::Unconfirmed => o.key_id,", "Ok(o) if o.is_coinbase => o.key_id,", "C07.R2")
@@ -124,7 +124,9 @@ def run_battery(prop, seed=0, verbose=True):
     try:
         for mu in muts:
             t0 = time.time()
-            subprocess.run(["rsync", "-a", "--delete", "--exclude", "target", "--exclude", ".git", facts.REPO + "/", repo_copy + "/"], check=True)
+            rc = subprocess.run(["rsync", "-a", "--delete", "--exclude", "target", "--exclude", ".git", "--exclude", "test_output", facts.REPO + "/", repo_copy + "/"]).returncode
+            if rc not in (0, 24):  # 24 = source files vanished during the copy (harmless)
+                raise RuntimeError("rsync failed: %d" % rc)
             p = os.path.join(repo_copy, mu["file"])
             try:
                 src = open(p).read()
